@@ -178,13 +178,13 @@ def check(ctx, rid, prop):
 AMOUNTS = os.path.join(HERE, 'rules', 'amounts.json')
 
 
-def amount_sites(F, f, callee):
-    """[(atoms of argument #idx as a '+'-joined string, line)] per call of `callee` in f, for idx = 1"""
+def amount_sites(F, f, callee, idx=1):
+    """[(atoms of argument #idx as a '+'-joined string, line)] per call of `callee` in f"""
     out = []
     for bi, t in f.calls_to(callee):
-        if len(t['a']) < 2:
+        if len(t['a']) <= idx:
             continue
-        at = operand_atoms(f.expr_of_op(t['a'][1]))
+        at = operand_atoms(f.expr_of_op(t['a'][idx]))
         out.append(('+'.join(sorted(at)) or '-', t['ln']))
     return out
 
@@ -201,15 +201,15 @@ def check_amounts(ctx, rid, prop):
         if f is None:
             r.ok('absent|%s|%s' % (e['caller'], e['callee']), '', 'caller not present in this configuration (not a violation)')
             continue
-        got = sorted(a for a, ln in amount_sites(F, f, e['callee']))
-        lines = [ln for a, ln in amount_sites(F, f, e['callee'])]
+        got = sorted(a for a, ln in amount_sites(F, f, e['callee'], e.get('arg', 1)))
+        lines = [ln for a, ln in amount_sites(F, f, e['callee'], e.get('arg', 1))]
         if not got:
             r.ok('absent|%s|%s' % (e['caller'], e['callee']), f.file, 'call not found (restructured?) — not a violation')
             continue
         found += 1
         want = sorted(e['atoms'])
         ok = got == want if len(got) == len(want) else set(got) <= set(want)
-        r.check(ok, 'amount|%s|%s' % (e['caller'].replace('proto::streams::', ''), e['callee'].replace('proto::streams::', '')), '%s:%s' % (f.file, lines[0]),
+        r.check(ok, 'amount|%s|%s%s' % (e['caller'].replace('proto::streams::', ''), e['callee'].replace('proto::streams::', ''), ('#%d' % e['arg']) if e.get('arg', 1) != 1 else ''), '%s:%s' % (f.file, lines[0]),
                 '%s passes %s to %s (reviewed: %s). %s' % (e['caller'].split('::')[-1] if 'closure' not in e['caller'] else e['caller'].split('::')[-2] + '::{closure}', got, e['callee'].split('::')[-1], want, e['why']))
     r.stat('entries', len(tab))
     r.floor(found, max(1, int(len(tab) * 0.8)), 'reviewed amount sites found in the tree')
